@@ -231,6 +231,17 @@ def want_lines_for(st, window_nominal):
             lines = [TB_HEADER, '  File "<sim>", line 1, in <module>', '    whatever()', last]
         elif w == 'tbbare':
             lines = [TB_HEADER, last]
+        elif w == 'tbdots':
+            # the stack abbreviated by an *unindented* ellipsis line
+            lines = [TB_HEADER, '...', last]
+        elif w == 'tbdotssuffix':
+            # ... followed by a final line that is only the tail of the real one:
+            # the module path and the first three characters of the class name are missing
+            head, sep, tail = last.partition(':')
+            lines = [TB_HEADER, '...', head.rsplit('.', 1)[-1][3:] + sep + tail]
+        elif w == 'tbdotsonly':
+            # header and ellipsis but no 'Type: message' line: not a traceback block
+            lines = [TB_HEADER, '...']
         elif w == 'tbell':
             # ellipsis inside the message: only the first 4 chars of the message are spelled out
             head = last.split(': ', 1)
@@ -275,6 +286,9 @@ def want_lines_for(st, window_nominal):
             lines[-1] = 'Wc' + lines[-1]
         else:
             lines.pop()
+    elif wc == 'blankline':
+        # replaced by the marker for an empty line: nothing the statement wrote
+        lines = ['<BLANKLINE>']
     elif wc in ('stale_replace', 'stale_prepend'):
         # corruption by text that an earlier statement of the same doctest
         # really produced (and that an earlier want already consumed, or that is
